@@ -55,7 +55,15 @@ out.append("Changes that the first version of a check **missed** and what was st
            "replies containing the digit D read as E: &HD, &h1d, &HDE among the replies of MC_Prog C17 and the VAL texts of "
            "MC_C07), C20-agent3 (no END appended after a final ON..GOTO that falls through: such a last line among MC_C20's "
            "templates; C01 ended in a tool error on this change because hundreds of sessions printed until their budget ran "
-           "out -- responses of commands that exhaust the budget are now cut to 200 events); C04-agent1 was caught only "
+           "out -- responses of commands that exhaust the budget are now cut to 200 events); "
+           "round 5: C05-agent3 (indentation after the line number shrinks with every listing: a fixed family of layouts "
+           "-- 0-5 blanks after the number, runs of blanks and tabs between tokens -- in C05), C10-agent3 (a second DEF of "
+           "the same function keeps the first one's parameter count: a two-parameter FNA among the templates of MC_Prog "
+           "C10), C03-agent3 (a line beginning with a non-ASCII blank panics the lexer: U+00A0 and U+3000 in C03's "
+           "alphabets -- and a defect of the harness itself: it classified each line with the interpreter's lexer "
+           "outside its panic guard, the script's thread died and the session was recorded as finished; the call is "
+           "guarded now and a script thread that ends without reporting the end counts as a panic); "
+           "C04-agent1 was caught only "
            "through an identity RENUM, where the specification demanded more than the property (see I.5) -- the specification "
            "was relaxed there and MC_C14 got a RENUM that moves earlier lines but not the last, a failing statement and a direct "
            "GOTO to a new number, which catch it for the right reason.\n")
